@@ -14,7 +14,8 @@ use serde::{Deserialize, Serialize};
 use std::collections::BTreeMap;
 
 /// one-, two- and three-word names, some a word-prefix of another
-pub const NAMES: [&str; 8] = ["total", "total cost", "total cost net", "rent", "net", "bonus", "ürün", "цена нетто"];
+/// ... two with non-ASCII letters, two spelled like a month / a zone abbreviation, one containing an operator character
+pub const NAMES: [&str; 11] = ["total", "total cost", "total cost net", "rent", "net", "bonus", "ürün", "цена нетто", "may", "west", "tax-rate"];
 
 /// a value with an exact literal spelling
 #[derive(Clone, Debug, PartialEq)]
@@ -410,7 +411,7 @@ pub fn literal_strategy() -> impl Strategy<Value = String> {
 
 pub fn operand_strategy(name_weight: u32) -> impl Strategy<Value = Operand> {
     prop_oneof![
-        name_weight => (0u8..8, 0u8..5, any::<u32>()).prop_map(|(i, c, b)| Operand::Name(i, c, b)),
+        name_weight => (0u8..11, 0u8..5, any::<u32>()).prop_map(|(i, c, b)| Operand::Name(i, c, b)),
         2 => literal_strategy().prop_map(Operand::Lit),
     ]
 }
@@ -435,19 +436,19 @@ pub fn expr_strategy() -> impl Strategy<Value = Expr> {
 
 pub fn stmt_strategy() -> impl Strategy<Value = Stmt> {
     prop_oneof![
-        6 => (0u8..8, 0u8..5, any::<u32>(), prop_oneof![3 => literal_strategy().prop_map(|l| Expr::One(Operand::Lit(l))), 4 => expr_strategy()]).prop_map(|(i, c, b, e)| Stmt::Assign(i, c, b, e)),
+        6 => (0u8..11, 0u8..5, any::<u32>(), prop_oneof![3 => literal_strategy().prop_map(|l| Expr::One(Operand::Lit(l))), 4 => expr_strategy()]).prop_map(|(i, c, b, e)| Stmt::Assign(i, c, b, e)),
         // copies (value, not reference): a later re-binding of the source must not show through
-        2 => (0u8..8, 0u8..8, 0u8..5, any::<u32>()).prop_map(|(i, j, c, b)| Stmt::Assign(i, c.wrapping_add(1), b.rotate_left(7), Expr::One(Operand::Name(j, c, b)))),
-        2 => (0u8..8, 0u8..5, any::<u32>()).prop_map(|(i, c, b)| Stmt::Use(Expr::One(Operand::Name(i, c, b)))),
+        2 => (0u8..11, 0u8..11, 0u8..5, any::<u32>()).prop_map(|(i, j, c, b)| Stmt::Assign(i, c.wrapping_add(1), b.rotate_left(7), Expr::One(Operand::Name(j, c, b)))),
+        2 => (0u8..11, 0u8..5, any::<u32>()).prop_map(|(i, c, b)| Stmt::Use(Expr::One(Operand::Name(i, c, b)))),
         7 => expr_strategy().prop_map(Stmt::Use),
-        2 => (0u8..8, 0u8..5).prop_map(|(i, k)| Stmt::Fail(i, k)),
+        2 => (0u8..11, 0u8..5).prop_map(|(i, k)| Stmt::Fail(i, k)),
         1 => (0u8..6).prop_map(Stmt::Garbage),
     ]
 }
 
 pub fn program_strategy(max: usize) -> impl Strategy<Value = Program> {
     // start with a few plain assignments so that names are bound early
-    (prop::collection::vec((0u8..8, 0u8..5, any::<u32>(), literal_strategy()), 1..4), prop::collection::vec(stmt_strategy(), 2..max)).prop_map(|(init, rest)| {
+    (prop::collection::vec((0u8..11, 0u8..5, any::<u32>(), literal_strategy()), 1..4), prop::collection::vec(stmt_strategy(), 2..max)).prop_map(|(init, rest)| {
         let mut stmts: Vec<Stmt> = init.into_iter().map(|(i, c, b, l)| Stmt::Assign(i, c, b, Expr::One(Operand::Lit(l)))).collect();
         stmts.extend(rest);
         Program { stmts }
@@ -577,7 +578,7 @@ pub fn script_regressions() -> Vec<Script> {
 }
 
 pub fn run(ctx: &Ctx) {
-    ctx.rule("generated straight-line programs of up to 14 statements over 8 names (one-, two- and three-word, word-prefixes of each other: total / total cost / total cost net; two with non-ASCII letters whose case mapping is one-to-one: ürün, цена нетто), names written in random letter case at every occurrence: assignments of literals of seven kinds (number, percent, money, duration, date, time, unit quantity), copies, arithmetic incl. self-reference, uses (name alone, name op operand, -name, n * -name, conversion / percentage / date / zone / unit / duration / unix / base sentences), broken assignments to existing names (= 1 +, = (, =, type error) and garbage lines; oracle: environment model holding the value OBSERVED at the binding, and substitution: each line must evaluate exactly like the same line with every name replaced by a literal spelling of the model's value on a variable-free session; the whole program is also run line by line through one re-used Session and must give the same slots; second sub-check (free-form scripts over names that contain each other as words, with assignments failing in the parser or in the interpreter - also first-time assignments): with any ONE failing line removed, every other line - evaluating or failing - gives exactly what it gave before; non-trivial = a name bound twice and used afterwards, a failing line between a binding and a use, a copy whose source is re-bound, two prefix-related names live");
+    ctx.rule("generated straight-line programs of up to 14 statements over 11 names (one-, two- and three-word, word-prefixes of each other: total / total cost / total cost net; two with non-ASCII letters whose case mapping is one-to-one: ürün, цена нетто; two that are also a month and a zone word: may, west; one containing an operator character: tax-rate), names written in random letter case at every occurrence: assignments of literals of seven kinds (number, percent, money, duration, date, time, unit quantity), copies, arithmetic incl. self-reference, uses (name alone, name op operand, -name, n * -name, conversion / percentage / date / zone / unit / duration / unix / base sentences), broken assignments to existing names (= 1 +, = (, =, type error) and garbage lines; oracle: environment model holding the value OBSERVED at the binding, and substitution: each line must evaluate exactly like the same line with every name replaced by a literal spelling of the model's value on a variable-free session; the whole program is also run line by line through one re-used Session and must give the same slots; second sub-check (free-form scripts over names that contain each other as words, with assignments failing in the parser or in the interpreter - also first-time assignments): with any ONE failing line removed, every other line - evaluating or failing - gives exactly what it gave before; non-trivial = a name bound twice and used afterwards, a failing line between a binding and a use, a copy whose source is re-bound, two prefix-related names live");
     ctx.assume("a name is used only after the model has a spellable binding for it (statements that would mention an unbound or unspellable name are skipped and counted)");
     ctx.run_table(&Programs, "regressions", regressions(), false);
     let max = match ctx.tier {
